@@ -225,7 +225,24 @@ func detDump(c *Ctx) {
 	loops := mapRangeLoops(c)
 	for _, l := range loops {
 		e := l.effects(c)
-		fmt.Fprintf(os.Stderr, "%s %s ret=%v exit=%v app=%v mapst=%d calls=%d sends=%d\n", c.Pos(l.rng.Pos()), fnKey(l.f), e.returnsElem, e.exitAssign, e.appends, e.mapStores, len(e.calls), e.sends)
+		// loop-carried values with their types
+		var carried []string
+		for _, ins := range l.header.Instrs {
+			phi, ok := ins.(*ssa.Phi)
+			if !ok {
+				break
+			}
+			dep := false
+			for i, ed := range phi.Edges {
+				if l.body[l.header.Preds[i]] && l.elemDependent(ed, map[ssa.Value]bool{}, 0) {
+					dep = true
+				}
+			}
+			if dep {
+				carried = append(carried, phi.Comment+":"+types.TypeString(phi.Type(), func(p *types.Package) string { return p.Name() }))
+			}
+		}
+		fmt.Fprintf(os.Stderr, "%s %s range(%s) ret=%v carried=%v app=%v mapst=%d calls=%v\n", c.Pos(l.rng.Pos()), fnKey(l.f), describeValue(l.rng.X), e.returnsElem, carried, e.appends, e.mapStores, e.calls)
 	}
 	fmt.Fprintf(os.Stderr, "total map-range loops: %d\n", len(loops))
 }
